@@ -1066,6 +1066,11 @@ func (app *BaseApp) runTx(mode runTxMode, txBytes []byte, tx sdk.Tx) (result sdk
 	// Create a new context based off of the existing context with a cache wrapped
 	// multi-store in case message processing fails.
 	runMsgCtx, newMS := app.txContext(ctx, txBytes) // todo edit here!!!
+	if mode != runTxModeDeliver {
+		// txContext hands out the root multistore. CheckTx and Simulate must never
+		// write to it, so run the message on a cache that is never flushed.
+		runMsgCtx, _ = app.cacheTxContext(runMsgCtx, txBytes)
+	}
 	result = app.runMsg(runMsgCtx, msgs, mode, signer)
 	result.GasWanted = gasWanted
 
